@@ -206,6 +206,7 @@ func judge(c Case, base time.Time, hist []rec, trace []string) evid.Verdict {
 		}
 		return b.String()
 	}
+keyLoop:
 	for _, k := range keys {
 		ct := base.Add(time.Duration(c.TOffUs[k.t]) * time.Microsecond)
 		acc := func(t time.Time) bool {
@@ -219,11 +220,12 @@ func judge(c Case, base time.Time, hist []rec, trace []string) evid.Verdict {
 		for _, r := range by[k] {
 			if acc(r.before) != acc(r.after) || !acc(r.before) {
 				// presented outside (or across the edge of) the window: VerifyAPREQ would not have consulted
-				// the cache; the case is not judged
+				// the cache; this authenticator is not judged (the others of the case are: what the cache says
+				// about them does not depend on it)
 				discarded.Lock()
 				discarded.n++
 				discarded.Unlock()
-				return evid.Pass()
+				continue keyLoop
 			}
 			if !r.replay {
 				accepted = append(accepted, r)
@@ -723,10 +725,10 @@ func TestProp(t *testing.T) {
 	})
 
 	// volume: thousands of other authenticators between an acceptance and the replay
-	r.Rule("volume: an authenticator is accepted, then N others are verified inside the skew window (the same client at other microseconds / the same client towards N services / N other clients), clean-ups in between, then the first one again; N in {1500, 5000} (thorough: up to 150000)")
-	vols := []int{1500, 5000}
+	r.Rule("volume: an authenticator is accepted, then N others are verified inside the skew window (the same client at other microseconds / the same client towards N services / N other clients), clean-ups in between, then the first one again; N in {1500, 5000, 20000, 70000} (thorough: up to 600000)")
+	vols := []int{1500, 5000, 20000, 70000}
 	if r.Thorough() {
-		vols = append(vols, 20000, 70000, 150000)
+		vols = append(vols, 150000, 600000)
 	}
 	for vi, n := range vols {
 		for ki, kind := range []string{"same-client", "same-client-other-services", "many-clients"} {
@@ -780,23 +782,29 @@ func TestProp(t *testing.T) {
 		{"2diff-sname", nil, [][]Op{{P(0, 0, 0)}, {P(0, 0, 1)}}, []Op{P(0, 0, 0), P(0, 0, 1)}, 300000, false},
 		{"2same+cleanup", nil, [][]Op{{P(0, 0, 0)}, {P(0, 0, 0)}, {{K: "cleanup"}}}, []Op{P(0, 0, 0)}, 300000, false},
 		{"new+cleanup-of-expired", []Op{P(0, 1, 0), {K: "sleep", Ms: 260}}, [][]Op{{P(0, 0, 0)}, {{K: "cleanup"}}}, []Op{P(0, 0, 0)}, 200, true},
+		// the client's record holds one entry that has expired (client time behind the window from the start: the cache itself
+		// does not judge the window); two presentations of a new authenticator race each other and the clean-up that drops the record
+		{"2same+cleanup-of-expired", []Op{P(0, 1, 0)}, [][]Op{{P(0, 0, 0)}, {P(0, 0, 0)}, {{K: "cleanup"}}}, []Op{P(0, 0, 0)}, 300001, false},
 		{"3same", nil, [][]Op{{P(0, 0, 0)}, {P(0, 0, 0)}, {P(0, 0, 0)}}, []Op{P(0, 0, 0)}, 300000, false},
 		{"2same+1diff-ctime", nil, [][]Op{{P(0, 0, 0)}, {P(0, 0, 0)}, {P(0, 1, 0)}}, []Op{P(0, 0, 0), P(0, 1, 0)}, 300000, false},
 		{"seq-in-thread", nil, [][]Op{{P(0, 0, 0), P(0, 0, 0)}, {P(0, 0, 0)}}, []Op{P(0, 0, 0)}, 300000, false},
 	}
 	mk := func(cf cfg, choices []int) Case {
 		c := Case{Mode: "sched", SkewMs: cf.skew, TOffUs: []int64{0, 1}, Pre: cf.pre, Threads: cf.threads, Post: cf.post, Choices: choices}
+		if cf.skew == 300001 {
+			c.SkewMs, c.TOffUs = 300000, []int64{0, -300050000} // timestamp 1 lies 50 ms behind the window
+		}
 		if cf.presleep {
 			// timestamp 1 is the old entry (presented, then expires); timestamp 0 is created 260 ms later: place it in the future so it is fresh
 			c.TOffUs = []int64{260000, 0}
 		}
 		return c
 	}
-	r.Rule("sched: cooperative scheduling over the verif yield points: configurations {2/3 threads presenting same / different-ctime / different-cname / different-sname authenticators, with and without a concurrent cleanup, insertion racing a cleanup that empties the client's entry}; quick: DFS over all schedules of the 2-thread configurations + rapid-drawn schedules of the rest; thorough: DFS over all; non-trivial = at least one context switch between operations on the same client")
+	r.Rule("sched: cooperative scheduling over the verif yield points: configurations {2/3 threads presenting same / different-ctime / different-cname / different-sname authenticators, with and without a concurrent cleanup, insertion racing a cleanup that empties the client's entry, two insertions of one authenticator racing that cleanup}; quick: DFS over all schedules of the 2-thread configurations + rapid-drawn schedules of the rest; thorough: DFS over all; non-trivial = at least one context switch between operations on the same client")
 	dfsLimit := r.N(3000, 200000)
 	for ci, cf := range cfgs {
 		three := len(cf.threads) >= 3
-		if r.Quick() && three && cf.name != "2same+cleanup" {
+		if r.Quick() && three && cf.name != "2same+cleanup" && cf.name != "2same+cleanup-of-expired" {
 			continue
 		}
 		cf := cf
